@@ -12,6 +12,7 @@ import PestModel.Drv.World
 import PestModel.Drv.CharSet
 import PestModel.Drv.Pairs
 import PestModel.Drv.Hyps
+import PestModel.Drv.Front
 
 open Pest
 
@@ -125,7 +126,7 @@ def handle (sess : Session) (line : String) : Session × String :=
     | some r => r
     | none =>
       match (handlePairs sess toks <|> handleHyps sess toks <|> handleText toks <|> handlePratt toks <|> handleWorld toks
-              <|> handleCharSet toks) with
+              <|> handleCharSet toks <|> handleFront toks) with
       | some r => (sess, r)
       | none => (sess, "bad-request:" ++ cmd)
 
